@@ -206,7 +206,17 @@ class StmtsMixin:
 
     def st_Assign(self, s, st, d):
         out = []
-        for s1, v in self.ev(s.value, st, d):
+        decl = st.ghost.get("@decl:" + s.targets[0].id) if len(s.targets) == 1 and isinstance(s.targets[0], ast.Name) else None
+        if decl is not None:
+            # `x: T` declared earlier without a value: the assignment is read like `x: T = value`
+            self.pending_ann = decl
+            try:
+                vals = self.ev(s.value, st, d)
+            finally:
+                self.pending_ann = None
+        else:
+            vals = self.ev(s.value, st, d)
+        for s1, v in vals:
             states = [s1]
             for t in s.targets:
                 states = [s3 for s2 in states for s3 in self.assign(t, v, s2, d)]
